@@ -36,7 +36,6 @@ import (
 	"fmt"
 	"math/big"
 	"os"
-	"runtime/pprof"
 	"sort"
 	"strings"
 	"time"
@@ -747,6 +746,11 @@ func (b *bfs) visit(idx []byte, own bool) *model {
 	}
 	_, dup := b.visited[res.key]
 	b.visited[res.key] = struct{}{}
+	if tr := os.Getenv("C04_TRACE"); tr != "" && strings.Join(histStr(s.u, h), " ") == tr {
+		f, _ := os.OpenFile("/tmp/c04-trace.log", os.O_APPEND|os.O_CREATE|os.O_WRONLY, 0o644)
+		fmt.Fprintf(f, "shard=%d slice=%s own=%v dup=%v fails=%v\n", c.Shard, s.name, own, dup, res.fails)
+		f.Close()
+	}
 	if own {
 		c.Eval(1)
 		c.Transition(1)
@@ -859,13 +863,18 @@ func (s *slice) step() {
 }
 
 func run(c *fw.Ctx) {
-	if pf := os.Getenv("C04_PROF"); pf != "" && c.Shard == 0 {
-		f, _ := os.Create(pf)
-		pprof.StartCPUProfile(f)
-		defer pprof.StopCPUProfile()
-	}
 	gen, com, warm := boot()
 	slices := buildSlices(c.Thorough(), gen, com, warm)
+	if only := os.Getenv("C04_ONLY"); only != "" { // development knob: restrict to slices whose name contains the string
+		var keep []*slice
+		for _, s := range slices {
+			if strings.Contains(s.name, only) {
+				keep = append(keep, s)
+			}
+		}
+		slices = keep
+		c.Cap("C04_ONLY=" + only)
+	}
 	var caseIdx int64
 	maxDepth := 0
 	for _, s := range slices {
@@ -936,5 +945,5 @@ func replay(c *fw.Ctx, raw json.RawMessage) {
 	for _, fd := range res.forward {
 		fmt.Printf("forward deviation (not C04): %s\n", fd)
 	}
-	s.report(c, k.Ops, res, false)
+	s.report(c, k.Ops, res, os.Getenv("C04_MIN") != "")
 }
